@@ -1,3 +1,5 @@
+import DSV.Proofs.Skeleton
+import DSV.Generated.Skeleton
 import DSV.Proofs.Lock
 /-!
 C19 — locks exclude, time out, and never report a lock that is not held.
@@ -131,3 +133,25 @@ theorem live_holder_not_taken_over (s : SSys) (a : Nat) (o : Obj) (ho : s.obj = 
   simp
 
 end DSV.Lock
+
+/-! ## Tie to the current source: the requests of the S3 lock -/
+namespace DSV.Src.C19
+open DSV.Skel DSV.Generated.Skel
+
+/-- **source_lock_requests** — in the CURRENT source: acquisition is a create-if-absent PUT; a takeover is HEAD then a PUT
+conditional on the ETag seen; `is_held` is one GET; release is a GET followed by an UNCONDITIONAL delete. -/
+theorem source_lock_requests :
+    project s3Voc s3LockTryAcquire = ["createIfAbsent"] ∧
+    project s3Voc s3LockTakeover = ["head", "replaceIfMatch"] ∧
+    project s3Voc s3LockIsHeld = ["get"] ∧
+    project s3Voc s3LockRelease = ["get", "delete"] := by decide
+
+/-- **source_release_is_unconditional** — the model switch `conditionalDelete` READ OFF the current source is `false`: the open
+finding `release-spans-takeover` (witness `owned_object_persists_refuted`) is a statement about the code as it is now. -/
+theorem source_release_is_unconditional : conditionalDeleteOf s3LockRelease = false := by decide
+
+/-- **owned_object_persists_source_refuted** — the refutation instantiated at the switch computed from the current source. -/
+theorem owned_object_persists_source_refuted : ¬ DSV.Lock.OwnedObjectPersists (conditionalDeleteOf s3LockRelease) := by
+  rw [source_release_is_unconditional]; exact DSV.Lock.owned_object_persists_refuted
+
+end DSV.Src.C19
